@@ -33,6 +33,219 @@ def self_stores(fn, F):
     return out
 
 
+M31 = 0x7fffffff
+SPEC31 = {'s0': (1 + (1 << 8)) % M31, 's4': 1 << 20, 's10': 1 << 21, 's13': 1 << 17, 's15': 1 << 15}
+
+
+def fold_bound(B):
+    """largest value of (x & M) + (x >> 31) over 0 <= x <= B"""
+    best = 0
+    for q in range(0, min(B >> 31, 64) + 1):
+        hi = min(B, ((q + 1) << 31) - 1)
+        best = max(best, (hi - (q << 31)) + q)
+    if (B >> 31) > 64:
+        best = max(best, M31 + (B >> 31))
+    return best
+
+
+class Lin31:
+    """value of an LFSR feedback expression as (linear form over the register cells and u modulo 2^31-1, upper bound), under
+    the register invariant `every cell and u are at most 2^31-1`.  Rules (all exact consequences of 2^31 = 1 mod 2^31-1):
+    rot31(a,k) with a <= M is 2^k*a mod M and <= M; x -> (x & M) + (x >> 31) keeps the residue and maps [0,B] into
+    [0,fold_bound(B)]; x % M keeps the residue and is < M; +, * by a constant and << k act on the residue and the bound as
+    on integers provided the bound stays inside the type.  None = not expressible (the caller falls back to the exact
+    template)."""
+
+    def __init__(self, cn, F):
+        self.cn, self.F = cn, F
+        self.why = None
+
+    def fail(self, why):
+        if self.why is None:
+            self.why = why
+        return None
+
+    def width(self, e):
+        t = (e.ty or '').strip()
+        return {'u8': 8, 'u16': 16, 'u32': 32, 'u64': 64, 'usize': 64, 'u128': 128}.get(t)
+
+    def ev(self, e, depth=0):
+        from ..prov import strip
+        import re as _re
+        e = strip(e)
+        if depth > 60:
+            return self.fail('expression too deep')
+        c = const_int(e) if e.k == 'const' else None
+        if c is not None:
+            return ({'1': c % M31} if c % M31 else {}, c)
+        t = self.cn.c(e)
+        m = _re.match(r'^\$(?:self\.)?s\[(\d+)\]$', t)
+        if m:
+            return ({'s' + m.group(1): 1}, M31)
+        if t == '$u':
+            return ({'u': 1}, M31)
+        if e.k == 'cast' and e.args:
+            a = self.ev(e.args[0], depth + 1)
+            if a is None:
+                return None
+            w = {'u8': 8, 'u16': 16, 'u32': 32, 'u64': 64, 'usize': 64, 'u128': 128}.get((e.ty or '').strip())
+            if w is None or a[1] >= (1 << w):
+                return self.fail('cast of a value bounded by %d to %s may truncate' % (a[1], e.ty))
+            return a
+        if e.k == 'field' and e.name == '0' and e.args and strip(e.args[0]).k == 'binop':
+            return self.ev(e.args[0], depth + 1)
+        if e.k == 'call':
+            ln = last(e.name)
+            if ln == 'rot31' and len(e.args) == 2:
+                a = self.ev(e.args[0], depth + 1); k = const_int(strip(e.args[1]))
+                if a is None or k is None or not 0 < k < 31:
+                    return self.fail('rot31 by a non-constant amount')
+                if a[1] > M31:
+                    return self.fail('rot31 of a value that may exceed 31 bits (bound %d)' % a[1])
+                return ({x: v * (1 << k) % M31 for x, v in a[0].items()}, M31)
+            if ln in ('add31', 'wrapping_add') and len(e.args) == 2:
+                a = self.ev(e.args[0], depth + 1); b = self.ev(e.args[1], depth + 1)
+                if a is None or b is None:
+                    return None
+                # the fold written with wrapping_add: (c & M).wrapping_add(c >> 31)
+                fb = self.fold(e.args[0], e.args[1], depth) if ln == 'wrapping_add' else None
+                if fb is not None:
+                    return fb
+                if a[1] + b[1] >= (1 << 32):
+                    return self.fail('%s of values bounded by %d and %d may wrap' % (ln, a[1], b[1]))
+                lin = self.add(a[0], b[0])
+                return (lin, fold_bound(a[1] + b[1]) if ln == 'add31' else a[1] + b[1])
+            if ln == 'sum' and len(e.args) == 1:
+                return self.itersum(e.args[0], depth)
+            return self.fail('call of %s' % ln)
+        if e.k == 'binop' and len(e.args) == 2:
+            n = e.name.replace('WithOverflow', '')
+            if n == 'Add':
+                fb = self.fold(e.args[0], e.args[1], depth)
+                if fb is not None:
+                    return fb
+                a = self.ev(e.args[0], depth + 1); b = self.ev(e.args[1], depth + 1)
+                if a is None or b is None:
+                    return None
+                if a[1] + b[1] >= (1 << 64):
+                    return self.fail('sum may overflow')
+                return (self.add(a[0], b[0]), a[1] + b[1])
+            if n in ('Mul', 'Shl'):
+                a = self.ev(e.args[0], depth + 1); k = const_int(strip(e.args[1]))
+                if n == 'Mul' and k is None:
+                    a = self.ev(e.args[1], depth + 1); k = const_int(strip(e.args[0]))
+                if a is None or k is None:
+                    return self.fail('%s by a non-constant' % n)
+                f = (1 << k) if n == 'Shl' else k
+                if n == 'Shl' and k >= 64 or a[1] * f >= (1 << 64):
+                    return self.fail('%s may overflow 64 bits' % n)
+                return ({x: v * f % M31 for x, v in a[0].items()}, a[1] * f)
+            if n == 'Rem' and const_int(strip(e.args[1])) == M31:
+                a = self.ev(e.args[0], depth + 1)
+                return None if a is None else (a[0], min(a[1], M31 - 1))
+            if n == 'BitAnd' and M31 in (const_int(strip(e.args[0])), const_int(strip(e.args[1]))):
+                x = e.args[1] if const_int(strip(e.args[0])) == M31 else e.args[0]
+                xs = strip(x)
+                if xs.k == 'binop' and xs.name == 'BitOr' and len(xs.args) == 2:
+                    # rot31 written out: ((a << k) | (a >> (31 - k))) & M with a <= M
+                    for sl, sr in ((strip(xs.args[0]), strip(xs.args[1])), (strip(xs.args[1]), strip(xs.args[0]))):
+                        if sl.k == 'binop' and sl.name == 'Shl' and sr.k == 'binop' and sr.name == 'Shr' and self.cn.c(sl.args[0]) == self.cn.c(sr.args[0]):
+                            k = const_int(strip(sl.args[1])); k2 = const_int(strip(sr.args[1]))
+                            a = self.ev(sl.args[0], depth + 1)
+                            if a is not None and k is not None and k2 is not None and 0 < k < 31 and k + k2 == 31 and a[1] <= M31 and self.width(sl) in (None, 32):
+                                return ({y: v * (1 << k) % M31 for y, v in a[0].items()}, M31)
+                a = self.ev(x, depth + 1)
+                if a is None:
+                    return None
+                if a[1] <= M31:
+                    return a
+                return self.fail('masking a value that may exceed 31 bits (bound %d) drops the carry: the residue mod 2^31-1 is lost' % a[1])
+            if n == 'BitOr':
+                # rot31 written out: ((a << k) | (a >> (31 - k))) -- only under the 31-bit mask, handled by the caller
+                return self.fail('BitOr')
+            return self.fail('operator %s' % n)
+        return self.fail('expression %s' % FR.short(t, 80))
+
+    def add(self, a, b):
+        out = dict(a)
+        for x, v in b.items():
+            out[x] = (out.get(x, 0) + v) % M31
+        return {x: v for x, v in out.items() if v}
+
+    def fold(self, p, q, depth):
+        """(x & M) + (x >> 31) in either order"""
+        from ..prov import strip
+        for lo, hi in ((strip(p), strip(q)), (strip(q), strip(p))):
+            if lo.k == 'binop' and lo.name == 'BitAnd' and hi.k == 'binop' and hi.name == 'Shr' and const_int(strip(hi.args[1])) == 31:
+                x = lo.args[1] if const_int(strip(lo.args[0])) == M31 else lo.args[0] if const_int(strip(lo.args[1])) == M31 else None
+                if x is not None and self.cn.c(x) == self.cn.c(hi.args[0]):
+                    a = self.ev(x, depth + 1)
+                    if a is None:
+                        return None
+                    return (a[0], fold_bound(a[1]))
+        return None
+
+    def itersum(self, it, depth):
+        """sum of `array.iter().map(|&t| t as wider)` (or of the array's iterator itself)"""
+        from ..prov import strip
+        it = strip(it)
+        conv = None
+        if it.k == 'call' and last(it.name) == 'map' and len(it.args) == 2:
+            cl = strip(it.args[1])
+            g = self.F.fns.get((cl.c or {}).get('closure')) if cl.k == 'aggr' and cl.c else None
+            r = I.returns(g, self.F) if g is not None else None
+            if not r or len(r) != 1 or r[0][1] not in ('($_2 as u64)', '$_2', '($_2 as u128)'):
+                return self.fail('sum over a map whose closure is not a widening cast')
+            it = strip(it.args[0])
+        while it.k == 'call' and last(it.name) in ('iter', 'into_iter', 'copied', 'cloned') and it.args:
+            it = strip(it.args[0])
+        while it.k in ('ref', 'deref') and it.args:
+            it = strip(it.args[0])
+        if not (it.k == 'aggr' and it.name == 'array'):
+            return self.fail('sum over something other than a literal array of terms')
+        lin, bound = {}, 0
+        for x in it.args:
+            a = self.ev(x, depth + 1)
+            if a is None:
+                return None
+            lin = self.add(lin, a[0]); bound += a[1]
+        return (lin, bound)
+
+
+def lfsr_semantic(cx, fn, mode_u):
+    """the new cell of one LFSR step decided through Lin31: (ok, text) or None when the stored value is not of the form
+    `if v == 0 {2^31-1} else {v}`"""
+    from ..prov import strip
+    P = Prov(fn, cx.F, cut_loops=True); cn = Canon(fn, P)
+    cand = []
+    for b, i, st in fn.stmts():
+        if st['k'] == 'assign' and st['lhs']['p'] and st['lhs']['p'][0] == 'deref' and any(isinstance(p, dict) and (p.get('cidx') == 15 or 'idx' in p and cn.c(norm(P.local(p['idx'], b, i))) == '15') for p in st['lhs']['p']):
+            cand.append(norm(P.rvalue(st['rv'], b, i, 0)))
+    if len(cand) != 1:
+        return None
+    e = strip(cand[0])
+    if not (e.k == 'phi' and len(e.args) == 2):
+        return None
+    alts = [strip(a) for a in e.args]
+    v = [a for a in alts if not (a.k == 'const' and const_int(a) == M31)]
+    if len(v) != 1:
+        return None
+    ev = Lin31(cn, cx.F)
+    r = ev.ev(v[0])
+    want = dict(SPEC31)
+    if mode_u:
+        want['u'] = 1
+    if r is None:
+        return (False, 'the new cell is not a sum of register terms reduced mod 2^31-1 (%s)' % ev.why, v[0], cn)
+    lin, bound = r
+    if lin != want:
+        diff = sorted(set(lin.items()) ^ set(want.items()))
+        return (False, 'the new cell is %s mod 2^31-1, the specification has %s (differs in %s)' % (sorted(lin.items()), sorted(want.items()), diff), v[0], cn)
+    if bound > M31:
+        return (False, 'the new cell has the right residue but may be as large as %d = 2^31-1 + %d: it no longer fits the 31-bit cell (one more reduction is needed)' % (bound, bound - M31), v[0], cn)
+    return (True, 'the new cell = 2^15 s15 + 2^17 s13 + 2^21 s10 + 2^20 s4 + (1+2^8) s0%s mod 2^31-1 and is at most 2^31-1 (bound %d)' % (' + u' if mode_u else '', bound), v[0], cn)
+
+
 def lfsr(cx, name, new_cell):
     fn = cx.fn('<impl ZUC>::' + name, 'I-ZUC')
     if fn is None:
@@ -40,10 +253,16 @@ def lfsr(cx, name, new_cell):
     st = self_stores(fn, cx.F)
     want = [('s[each(Range::Range{0, 15})]', 'phi($self.s[AddWithOverflow(each(Range::Range{0, 15}), 1).0])'), ('s[15]', 'phi(0x7fffffff | %s)' % new_cell)]
     want2 = [(a, b.replace('phi($self.s[AddWithOverflow(each(Range::Range{0, 15}), 1).0])', '$self.s[AddWithOverflow(each(Range::Range{0, 15}), 1).0]')) for a, b in want]
-    ok = st in (want, want2)
-    if not ok and st == want[1:]:
+    # the new cell: decided semantically (residue mod 2^31-1 and 31-bit bound) whenever it is a reduced sum of register
+    # terms, whatever the order of the terms and the way the reduction is written; otherwise the exact template
+    sem = lfsr_semantic(cx, fn, '$u' in new_cell)
+    cell_ok = sem[0] if sem is not None else (bool(st) and st[-1] == want[1])
+    shift = st[:-1] if st and st[-1][0] == 's[15]' else st
+    ok = shift in ([want[0]], [want2[0]])
+    if not ok and shift == []:
         # the shift written as `self.s.copy_within(1..16, 0)`: same move of cells 1..15 down by one, provided the taps
-        # were read before it (every add31/rot31 call dominates it) and the new cell is stored after it
+        # were read before it (every add31/rot31 call dominates it, and the new cell is an expression over the register
+        # as it was on entry) and the new cell is stored after it
         P_ = Prov(fn, cx.F, cut_loops=True); cn_ = Canon(fn, P_)
         cw = [b for b in FR.calls_of(fn, 'copy_within')]
         dom = fn.dominators()
@@ -52,11 +271,12 @@ def lfsr(cx, name, new_cell):
             taps = [b for b in FR.calls_of(fn, 'add31')] + [b for b in FR.calls_of(fn, 'rot31')]
             stores15 = [b for b, i, s_ in fn.stmts() if s_['k'] == 'assign' and s_['lhs']['p'] and s_['lhs']['p'][0] == 'deref'
                         and any(isinstance(p, dict) and ('cidx' in p or 'idx' in p) for p in s_['lhs']['p'])]
-            ok = (a_[1:] == ['Range::Range{1, 16}', '0'] and a_[0].endswith('$self.s') and all(t in dom.get(cw[0], ()) for t in taps)
+            ok = (a_[1:] in (['Range::Range{1, 16}', '0'], ['RangeFrom::RangeFrom{1}', '0']) and a_[0].endswith('$self.s') and all(t in dom.get(cw[0], ()) for t in taps)
                   and all(cw[0] in dom.get(b, ()) for b in stores15))
-    cx.add('I-ZUC', name, ok, '%s: s16 = %s (0 replaced by 2^31-1), then the register shifts by one cell' % (name, FR.short(new_cell, 120)), fn.loc(), {'got': st})
+    cx.add('I-ZUC', name, ok and cell_ok, '%s: s16 = %s (0 replaced by 2^31-1), then the register shifts by one cell%s' % (name, FR.short(new_cell, 120), ' -- ' + sem[1] if sem is not None else ''), fn.loc(), {'got': st})
     P = Prov(fn, cx.F, cut_loops=True); cn = Canon(fn, P)
-    z = [p for _, p, _, _ in G.bool_switches(fn, P) if p.kind == 'eq' and cn.c(p.args[0]) == new_cell and const_int(p.args[1]) == 0]
+    cell_txt = (new_cell,) if sem is None else (new_cell, sem[3].c(sem[2]))
+    z = [p for _, p, _, _ in G.bool_switches(fn, P) if p.kind == 'eq' and cn.c(p.args[0]) in cell_txt and const_int(p.args[1]) == 0]
     cx.add('I-ZUC', name + '/zero', len(z) == 1, 'the replacement by 2^31-1 is taken exactly when the new cell is 0', fn.loc())
 
 
@@ -69,6 +289,10 @@ def run(cx):
     K.k_array(cx, 'K-ZUC', 'gm_zuc', 'S1', z.s1, 1)
     K.k_array(cx, 'K-ZUC', 'gm_zuc', 'D', z.d, 4)
     for name, want in HELPERS.items():
+        if name in ('add31', 'rot31') and 'gm_zuc::' + name not in F.fns and not any(FR.calls_of(g, name) for q, g in F.fns.items() if q.startswith(('gm_zuc::', '<impl ZUC>'))):
+            # the LFSR arithmetic helper is gone and nothing calls it: the new cell is then decided by Lin31 alone
+            cx.hold('I-ZUC', name, '%s: not present and not called (the LFSR feedback is decided through its residue and bound)' % name, 'gm-zuc/src/lib.rs')
+            continue
         f = cx.fn('gm_zuc::' + name, 'I-ZUC')
         if f is not None:
             r = [x[1] for x in I.returns(f, F)]
@@ -161,7 +385,8 @@ def run(cx):
         sw_ok = all(cn.c(norm(P.operand(gk.blocks[b]['term']['op'], b, len(gk.blocks[b]['stmts'])))).startswith('discr(next(') for b in sw)
         cx.add('P-SPLIT', 'generate_keystream/branches', sw_ok, 'the only branch in the loop is the iterator test', gk.loc())
         ps = [FR.arg_canon(gk, P, cn, b, 1) for b in FR.calls_of(gk, 'push')]
-        cx.add('P-SPLIT', 'generate_keystream/word', ps == ['BitXor(f($self), $self.x[3])'], 'each pushed word is F() ^ X3 of the current state: %s' % ps, gk.loc())
+        cx.add('P-SPLIT', 'generate_keystream/word', ps in (['BitXor(f($self), $self.x[3]#{call:f})'], ['BitXor(f($self), $self.x[3]#{call:bit_reconstruction})']),
+               'each pushed word is F() ^ X3 with X3 read in the version left by this step\'s bit reconstruction (F does not write X: I-ZUC/f), before the LFSR step: %s' % ps, gk.loc())
         cx.add('P-SPLIT', 'generate_keystream/count', FR.arg_canon(gk, P, cn, hdr, 0) == 'into_iter(Range::Range{0, $n})', 'exactly n words per request', gk.loc())
     a = F.adts.get('gm_zuc::ZUC')
     if a:
